@@ -265,7 +265,7 @@ def run(F, rep, tier):
                        "a jsonify() result, a scalar rendering or pass through a JSON string escaper; (2) each route's handler must reach exactly the workspace "
                        "operation the route stands for; (3) all other bodies are produced by serde; (4) lock results are matched, never unwrapped. "
                        "Round-trips of TCK DTOs and request-sequence equivalence are not decided.")
-    r1 = rep.rule("R18.1", "JSON taint: no raw text reaches the JSON output of the value kinds the property lists without escaping")
+    r1 = rep.rule("R18.1", "JSON taint: no raw text reaches the JSON output of any value kind without escaping (the kinds the property lists each have an arm of their own)")
     r2 = rep.rule("R18.2", "each definitions/evaluate route reaches exactly the workspace operation it stands for")
     r3 = rep.rule("R18.3", "every response body is built by serde or by the jsonify path checked in R18.1")
     r4 = rep.rule("R18.4", "results of RwLock::read/write are matched, never unwrapped, in the server")
@@ -309,13 +309,18 @@ def run(F, rep, tier):
                 t.bad = []
                 ok = t.safe(arm["b"], {})
                 if not kinds:
-                    rep.note("Value::jsonify wildcard arm (kinds outside the property's list, e.g. temporal values) renders: %s" % ("safe text" if ok else "raw text"))
+                    # 'every response is a well-formed JSON document': the arm for all remaining kinds (dates, times, durations, ranges ..) must produce JSON text as well
+                    if ok:
+                        rep.ok(r1, "Value::<other kinds>", "the arm for the remaining kinds renders escaped / constant text only")
+                    else:
+                        rep.violation(r1, "Value::<other kinds>", "the arm of Value::jsonify for the remaining kinds (dates, times, durations, ranges ..) renders raw text: %s - an evaluation "
+                                      "result of such a kind makes the response body ill-formed JSON" % (t.bad[0][1] if t.bad else "raw text returned"), "%s:%s" % (h["file"], arm.get("l")))
                     continue
                 for kd in kinds:
                     seen.add(kd)
                     if kd not in RESULT_KINDS:
                         if not ok:
-                            rep.note("Value::%s is rendered as raw text (kind outside the property's list)" % kd)
+                            rep.violation(r1, "Value::%s" % kd, "Value::%s is rendered into JSON as raw text: %s" % (kd, t.bad[0][1] if t.bad else "raw text returned"), "%s:%s" % (h["file"], arm.get("l")))
                         continue
                     key = "Value::%s" % kd
                     if ok:
